@@ -133,6 +133,7 @@ class Sim:
         self.main_ctx = self.new_ctx(label="main")
         self.main: SimThread | None = None
         self.entropy_calls = 0
+        self._entropy_by_label: dict = {}
         self.entropy_label: Any = None      # set by engines to give two executions "the same OS entropy"
         # per-run observers (filled by sim.install / engines)
         self.obs: dict[str, Any] = {}
@@ -159,7 +160,14 @@ class Sim:
         """What ``np.random.seed(None)`` 'reads from the OS' (32 bit)."""
         n = self.entropy_calls
         self.entropy_calls += 1
-        label = self.entropy_label if self.entropy_label is not None else ("call", n)
+        if self.entropy_label is None:
+            label = ("call", n)
+        else:
+            # two executions given the same label read the same *sequence* of entropy values (the k-th read under a
+            # label is a function of (label, k)), but successive reads differ - e.g. the reseeding of pool workers
+            k = self._entropy_by_label.get(repr(self.entropy_label), 0)
+            self._entropy_by_label[repr(self.entropy_label)] = k + 1
+            label = ("label", repr(self.entropy_label), k)
         return H(self.rng_entropy_seed, label) % (2 ** 32)
 
     # ------------------------------------------------------------------ log
